@@ -15,6 +15,7 @@ package main
 // parses into whole frames; the frames are, in the order of the writes, the predicted ones.
 
 import (
+	"os"
 	"bufio"
 	"bytes"
 	"context"
@@ -249,6 +250,18 @@ func (f wFrame) tok(t int) string {
 		hex.EncodeToString([]byte(f.pre)), f.n, hex.EncodeToString([]byte(f.suf)))
 }
 
+// a pad of letters and digits that gzip cannot shrink much
+func noisePad(i, n int) string {
+	const abc = "abcdefghijklmnopqrstuvwxyzABCDEFGHIJKLMNOPQRSTUVWXYZ0123456789"
+	x := uint64(i)*2654435761 + 12345
+	b := make([]byte, n)
+	for k := range b {
+		x = x*6364136223846793005 + 1442695040888963407
+		b[k] = abc[(x>>33)%uint64(len(abc))]
+	}
+	return string(b)
+}
+
 func md5hex(b []byte) string { h := md5.Sum(b); return hex.EncodeToString(h[:]) }
 
 // split a raw stream into frames with the independent decoder; returns the frames and the offset at
@@ -360,6 +373,26 @@ func wRunCase(o *common.Out, id string, c wCase, r *common.Rand) {
 				// the response carries the reply and the handler's response metadata (none), not the request's
 				pred[i] = wFrame{hdr: rh, path: "Sd08", method: "Echo",
 					pre: fmt.Sprintf(`{"Id":%d,"Pad":"`, i), n: 2 * w.pad, suf: `"}`}
+			case "Z":
+				// a request that asks for compression (gzip) with a pad that does not compress: the reply (twice the
+				// pad) is compressed when it is longer than 1024 bytes - the frame is still one transport write
+				var h [12]byte
+				h[0], h[2], h[3] = 8, 1<<2, 1<<4
+				binary.BigEndian.PutUint64(h[4:], uint64(100+i))
+				padS := noisePad(i, w.pad)
+				args, _ := json.Marshal(&BArgs{Id: i, Pad: padS})
+				zargs, _ := protocol.Compressors[protocol.Gzip].Zip(args)
+				req := refcodec.Build(h, []byte("Sd08"), []byte("Echo"), nil, append([]byte{}, zargs...))
+				starters = append(starters, func() { pc.Write(req) })
+				reply := []byte(fmt.Sprintf(`{"Id":%d,"Pad":"%s"}`, i, padS+padS))
+				rh := h
+				rh[2] = 0x80
+				if len(reply) > 1024 {
+					rh[2] |= 1 << 2
+					z, _ := protocol.Compressors[protocol.Gzip].Zip(reply)
+					reply = append([]byte{}, z...)
+				}
+				pred[i] = wFrame{hdr: rh, path: "Sd08", method: "Echo", pre: string(reply)}
 			case "C":
 				var h [12]byte
 				h[0], h[3] = 8, 1<<4
@@ -566,6 +599,15 @@ func wRunCase(o *common.Out, id string, c wCase, r *common.Rand) {
 			who = strconv.Itoa(order[k])
 		}
 		fs = append(fs, who+":"+md5hex(fr))
+		if os.Getenv("C08DEBUG") != "" && k < len(order) {
+			want := pred[order[k]].bytes()
+			for x := 0; x < len(fr) && x < len(want); x++ {
+				if fr[x] != want[x] {
+					fmt.Fprintf(os.Stderr, "frame %d differs at %d: got %x want %x (len %d/%d) hdr got %x want %x\n", k, x, fr[x:x+8], want[x:x+8], len(fr), len(want), fr[:16], want[:16])
+					break
+				}
+			}
+		}
 	}
 	obs := fmt.Sprintf("frames=%s stream=%d:%s", strings.Join(fs, ","), len(stream), md5hex(stream))
 	if bad != -1 {
@@ -660,7 +702,7 @@ func genWCase(r *common.Rand, tier string) wCase {
 	for i := 0; i < n; i++ {
 		var k string
 		if c.side == "srv" {
-			k = []string{"R", "R", "C", "C", "H", "H", "P", "E", "X"}[r.Intn(9)]
+			k = []string{"R", "R", "C", "C", "H", "H", "P", "E", "X", "Z"}[r.Intn(10)]
 		} else {
 			k = []string{"G", "G", "G", "O", "S"}[r.Intn(5)]
 		}
@@ -733,6 +775,20 @@ func runShared(r *common.Rand, tier string, o *common.Out, replay string) {
 				for _, async := range []bool{false, true} {
 					c := wCase{side: "srv", async: async, oneP: true,
 						ws:  []wWriter{{kind: k0, pad: 100}, {kind: k1, pad: 120}, {kind: k2, pad: 90}},
+						ops: []string{"s0", "r0", "s1", "s2", "r2", "r1"}}
+					wRunCase(o, fmt.Sprintf("sys%d", n), c, r)
+					n++
+				}
+			}
+		}
+	}
+	// compressed replies next to other writers, synchronous and asynchronous writes, with and without the worker pool
+	for _, k1 := range []string{"R", "H", "P", "Z"} {
+		for _, async := range []bool{false, true} {
+			for _, pool := range []bool{false, true} {
+				for _, pad := range []int{300, 900, 2500} {
+					c := wCase{side: "srv", async: async, pool: pool, oneP: true,
+						ws:  []wWriter{{kind: "Z", pad: pad}, {kind: k1, pad: 120}, {kind: "Z", pad: pad + 40}},
 						ops: []string{"s0", "r0", "s1", "s2", "r2", "r1"}}
 					wRunCase(o, fmt.Sprintf("sys%d", n), c, r)
 					n++
